@@ -215,22 +215,7 @@ def r_C33c_C34g(root):
     t = load(root, M); drv = find_i(root, M, "parse_tree_to_objgraph")
     pn = find_i(root, M, "parse_tree_to_objgraph.process_node"); fi = sem.info(pn)
     # C33.c (line/col handed to a match processor) is decided by evaluation: C13.h (sa/rules/cpn.py)
-    # ---- C34.g
-    fd = sem.info(drv); cfg = fd.cfg
-    sorts = [c for c in calls(drv, own=True) if callee_name(c) == "sort" and "pos_crossref_list" in ast.unparse(c.func)]
-    wl = next((n for n in own_nodes(drv) if isinstance(n, ast.While) and any(callee_name(c) == "resolve_one_step" for c in calls(n))), None)
-    if wl is None: raise AnalysisError("resolution loop not found")
-    inst += 1
-    good = []
-    for c in sorts:
-        lp = next((a for a in ancestors(c) if isinstance(a, ast.For)), None)
-        in_models_loop = lp is not None and isinstance(lp.iter, ast.Name) and lp.iter.id == "models"
-        after = c.lineno > wl.end_lineno and any(a is block_parent(wl) for a in ancestors(c))
-        if in_models_loop and after: good.append(c)
-    ob("C34", "C34.g", M, "parse_tree_to_objgraph", "position lists sorted for every model after the resolution loop", bool(good))
-    if not good:
-        where = ast.unparse(stmt_of(sorts[0]))[:80] if sorts else "no sort"
-        out.append(Finding("C34", "C34.g", M, "parse_tree_to_objgraph", where, "the cross-reference position list is not sorted for every model after resolution: an imported model publishes its list before any reference is resolved, so its list stays in resolution order", witness="imported file with a postponed reference"))
+    # C34.g (lists sorted for every model after the last round) is decided by evaluation of the driver: C34.j (sa/rules/cdrv.py)
     return inst, out
 def block_parent(stmt):
     return getattr(stmt, "_parent", None)
